@@ -106,30 +106,59 @@ LOOP_ERRORS = []
 SECOND = b"GET /second HTTP/1.1\r\nHost: h\r\nConnection: close\r\n\r\n"
 
 
-def drive(case, second=False, pipelined=False, split_body=False):
-    """Returns list of (bytes sent since last step, closed) after each feed step."""
-    from tornado.httpserver import HTTPServer
+def _stream_class():
+    import errno
     from harness.fake_iostream import FakeIOStream
+
+    class BlockableStream(FakeIOStream):
+        """FakeIOStream whose transport can refuse everything (EWOULDBLOCK) until the harness unblocks it."""
+        blocked = False
+
+        def write_to_fd(self, data):
+            if self.blocked:
+                self.write_calls.append(len(data))
+                raise BlockingIOError(errno.EWOULDBLOCK, "transport blocked by the harness")
+            return super().write_to_fd(data)
+    return BlockableStream
+
+
+def drive(case, second=False, pipelined=False, split_body=False):
+    """Returns list of (bytes sent since last step, closed) after each step.
+    wmode "sync": every write completes at once.  "after" / "before": the transport is blocked when the request
+    head arrives and is unblocked after / before the rest of the request (its body) has arrived."""
+    from tornado.httpserver import HTTPServer
     from harness.vclock import run_virtual, settle
     quiet_logs()
     head, body = request_bytes(case)
-    if pipelined:
-        steps = [head + body + SECOND]
+    wmode = case.get("wmode", "sync")
+    UNBLOCK = object()
+    if wmode == "sync":
+        if pipelined:
+            steps = [[head + body + SECOND]]
+        else:
+            steps = [[head, body] if (split_body and body) else [head + body]] + ([[SECOND]] if second else [])
     else:
-        steps = ([head, body] if (split_body and body) else [head + body]) + ([SECOND] if second else [])
+        first = [head] + ([body, UNBLOCK] if wmode == "after" else [UNBLOCK, body])
+        steps = [first] + ([[SECOND]] if second else [])
 
     async def scenario(loop):
         # callbacks that raise inside the event loop are recorded, not printed (see NOTES.md: a completed
         # _write_future is completed again by _on_write_complete after a write on a closed stream)
         loop.set_exception_handler(lambda lp, ctx: LOOP_ERRORS.append(type(ctx.get("exception")).__name__))
         srv = HTTPServer(make_app(case["prog"], case["early"]), no_keep_alive=case["nka"])
-        s = FakeIOStream()
+        s = _stream_class()()
+        s.blocked = wmode != "sync"
         srv.handle_stream(s, ("1.2.3.4", 5))
         await settle(2)
         out = []
-        for seg in steps:
-            s.feed(seg)
-            await settle(12)
+        for group in steps:
+            for seg in group:
+                if seg is UNBLOCK:
+                    s.blocked = False
+                    s.notify_write()
+                elif seg:
+                    s.feed(seg)
+                await settle(12)
             out.append((s.take_sent(), s.closed()))
         return out
     return run_virtual(scenario, start=VSTART)
@@ -184,11 +213,12 @@ def sha_table(prog):
 
 
 def greq(case):
-    return "(mkReq %s %s %s %s %s %s %s)" % (
+    return "(mkReq %s %s %s %s %s %s %s %s)" % (
         case["meth"], {"1.0": "V10", "1.1": "V11"}[case["ver"]],
         G.goption(case["conn"], lb, "bytes"), G.goption(case["inm"], lb, "bytes"),
         {"none": "NoBody", "cl": "BodyCL", "chunked": "BodyChunked"}[case["body"]],
-        G.gbool(case["nka"]), G.gbool(case["early"]))
+        G.gbool(case["nka"]), G.gbool(case["early"]),
+        {"sync": "WSync", "after": "WAfterBody", "before": "WBeforeBody"}[case.get("wmode", "sync")])
 
 
 def coq_input(case):
@@ -205,9 +235,9 @@ RUN_IMPORTS = RUN_IMPORTS + " " + _preamble()
 
 
 # ---------------------------------------------------------------- generator
-def mk(meth="GET", ver="1.1", conn=None, inm=None, body="none", nka=False, early=False, prog=()):
+def mk(meth="GET", ver="1.1", conn=None, inm=None, body="none", nka=False, early=False, prog=(), wmode="sync"):
     return {"meth": meth, "ver": ver, "conn": conn, "inm": inm, "body": body, "nka": nka, "early": early,
-            "prog": [list(o) for o in prog]}
+            "prog": [list(o) for o in prog], "wmode": wmode}
 
 
 def case_from_json(c):
@@ -303,7 +333,8 @@ def rand_case(rng, soup=False):
         body = rng.choice(["cl", "cl", "chunked", "none"])
     elif rng.random() < 0.1:
         body = "cl"
-    return mk(meth, ver, conn, rand_inm(rng, prog), body, rng.random() < 0.08, rng.random() < 0.08, prog)
+    wmode = "sync" if rng.random() < 0.75 else rng.choice(["after", "before"])
+    return mk(meth, ver, conn, rand_inm(rng, prog), body, rng.random() < 0.08, rng.random() < 0.08, prog, wmode)
 
 
 SMALL_OPS = [("S", 204), ("S", 304), ("S", 404), ("W", "x"), ("W", ""), ("F",), ("X",), ("H", "Content-Length", "1"),
@@ -360,6 +391,12 @@ def corpus_cases():
         mk("GET", "1.1", None, prog=[("W", "x"), ("F",), ("H", "X-A", "bad\nvalue")]),
         # suspected defects reported in NOTES.md
         mk("GET", "1.1", None, prog=[("S", 204), ("W", "x"), ("F",)]),
+        # blocked transport: a Content-Length guard abort discards the unsent header block
+        mk("GET", "1.1", None, prog=[("H", "Content-Length", "3"), ("W", "x"), ("F",), ("W", "yzw")], wmode="after"),
+        mk("POST", "1.1", None, body="cl", prog=[("H", "Content-Length", "3"), ("W", "x"), ("F",), ("W", "yzw")], wmode="before"),
+        mk("POST", "1.1", None, body="cl", early=True, prog=[("H", "Content-Length", "3"), ("W", "x"), ("F",)], wmode="before"),
+        mk("POST", "1.1", None, body="cl", early=True, prog=[("H", "Content-Length", "3"), ("W", "x"), ("F",)], wmode="after"),
+        mk("GET", "1.1", None, prog=[("W", "x"), ("F",), ("W", "y")], wmode="after"),
         mk("GET", "1.1", None, prog=[("H", "Bad Name", "v"), ("F",)]),
         mk("GET", "1.1", None, prog=[("H", "Content-Length", "abc"), ("W", "x")]),
     ]
@@ -378,6 +415,7 @@ def classify(case, o):
     p = case["prog"]
     ks = [x[0] for x in p]
     yield "len=%d" % len(p)
+    yield "writes=" + case.get("wmode", "sync")
     if "F" in ks:
         yield "has-flush"
     if "X" in ks:
@@ -446,6 +484,8 @@ def shrink(case):
         yield dict(case, nka=False)
     if case["early"]:
         yield dict(case, early=False)
+    if case.get("wmode", "sync") != "sync":
+        yield dict(case, wmode="sync")
 
 
 def _selfcheck_reason_table():
@@ -467,7 +507,7 @@ def pre_build():
 
 TRUSTED_BASE = [
     "harness handler that interprets the op list by calling set_status/set_header/add_header/clear_header/write/flush/finish on the real RequestHandler",
-    "FakeIOStream accepts every write at once (no partial sends): write completion order is not explored",
+    "write completion order is explored only as: all writes complete at once, or the transport is blocked from the request head until a single unblock before/after the request body arrived (no partial sends)",
     "SHA-1 is an uninterpreted function in the theorems; the correspondence run supplies hashlib's digests as a lookup table",
     "Server/Date default header values are inputs (taken from tornado.version and the virtual clock)",
     "reason_table in Model.v is a copy of http.client.responses (checked against the interpreter by pre_build)",
